@@ -189,23 +189,38 @@ class RDMol2StereoMolGraph:
                 atom_stereo = SquarePlanar(atoms=sp_atoms, parity=0)
 
             elif chiral_tag == Chem.ChiralType.CHI_TRIGONALBIPYRAMIDAL:
-                perm = atom.GetUnsignedProp("_chiralPermutation")
-                tbp_order = self._tbp_atom_order_permutation_dict[perm]
-                neigh_atoms = tuple([neighbors[i] for i in tbp_order])
-                # the table lists (from, eq, eq, eq, to), the descriptor
-                # wants (axial, axial, eq, eq, eq)
-                neigh_atoms = tuple([neigh_atoms[i] for i in (0, 4, 1, 2, 3)])
-                tbp_atoms = (id_atom_map[atom_idx], *neigh_atoms)
-                assert len(tbp_atoms) == 6
-                atom_stereo = TrigonalBipyramidal(tbp_atoms, 1)
+                if not atom.HasProp("_chiralPermutation"):
+                    # tag without permutation label: unspecified arrangement
+                    # (this is what the export writes for parity None)
+                    tbp_atoms = (id_atom_map[atom_idx], *neighbors)
+                    assert len(tbp_atoms) == 6
+                    atom_stereo = TrigonalBipyramidal(tbp_atoms, None)
+                else:
+                    perm = atom.GetUnsignedProp("_chiralPermutation")
+                    tbp_order = self._tbp_atom_order_permutation_dict[perm]
+                    neigh_atoms = tuple([neighbors[i] for i in tbp_order])
+                    # the table lists (from, eq, eq, eq, to), the descriptor
+                    # wants (axial, axial, eq, eq, eq)
+                    neigh_atoms = tuple(
+                        [neigh_atoms[i] for i in (0, 4, 1, 2, 3)]
+                    )
+                    tbp_atoms = (id_atom_map[atom_idx], *neigh_atoms)
+                    assert len(tbp_atoms) == 6
+                    atom_stereo = TrigonalBipyramidal(tbp_atoms, 1)
 
             elif chiral_tag == Chem.ChiralType.CHI_OCTAHEDRAL:
-                perm = atom.GetUnsignedProp("_chiralPermutation")
-                order = self._oct_atom_order_permutation_dict[perm]
-                neigh_atoms = tuple([neighbors[i] for i in order])
-                oct_atoms = (id_atom_map[atom_idx], *neigh_atoms)
-                assert len(oct_atoms) == 7
-                atom_stereo = Octahedral(oct_atoms, 1)
+                if not atom.HasProp("_chiralPermutation"):
+                    # tag without permutation label: unspecified arrangement
+                    oct_atoms = (id_atom_map[atom_idx], *neighbors)
+                    assert len(oct_atoms) == 7
+                    atom_stereo = Octahedral(oct_atoms, None)
+                else:
+                    perm = atom.GetUnsignedProp("_chiralPermutation")
+                    order = self._oct_atom_order_permutation_dict[perm]
+                    neigh_atoms = tuple([neighbors[i] for i in order])
+                    oct_atoms = (id_atom_map[atom_idx], *neigh_atoms)
+                    assert len(oct_atoms) == 7
+                    atom_stereo = Octahedral(oct_atoms, 1)
 
             else:
                 continue
